@@ -714,7 +714,7 @@ fn rep_t<T, E: std::fmt::Display>(r: Result<T, E>) -> Result<T, String> {
 pub fn wait_unlocked(path: &std::path::Path) {
     use fs2::FileExt;
     let db = path.join("db");
-    for _ in 0..2000 {
+    for _ in 0..20000 {
         match std::fs::OpenOptions::new().read(true).write(true).open(&db) {
             Ok(f) => {
                 if f.try_lock_exclusive().is_ok() {
